@@ -32,9 +32,9 @@ Definition excel_cell_value (c : xcell) : text :=
   end.
 
 Definition sheet := list (list xcell).
-Definition ncols (s : sheet) : nat := fold_right (fun r acc => Nat.max (length r) acc) 0%nat s.
+Definition ncols {A} (s : list (list A)) : nat := fold_right (fun r acc => Nat.max (length r) acc) 0%nat s.
 (* rows up to the last one that has a cell *)
-Fixpoint trim_rows (s : sheet) : sheet :=
+Fixpoint trim_rows {A} (s : list (list A)) : list (list A) :=
   match s with
   | [] => []
   | r :: rest => match trim_rows rest with
